@@ -9,6 +9,9 @@ Definition next_addr (a : Z) : Z := if a <? 125 then a + 1 else 0.
 Definition sweep_len : nat := 126.          (* addresses per sweep *)
 Definition sweep_polls : nat := 252.        (* polls per sweep: probe + advance *)
 
+(* the addresses of n consecutive probes starting at c *)
+Definition sweep_from (c : Z) (n : nat) : list Z := map (fun i => (c + Z.of_nat i) mod 126) (seq 0 n).
+
 Section Oracles.
   Variable P : Type.
   Variable peqb : P -> P -> bool.
@@ -69,7 +72,7 @@ Section Oracles.
     | [] => Some known
     | p :: r =>
         let k0 := (match ap_da p, ap_cls p with
-                   | Some da, COther => if silent then Z.setbit known da else known
+                   | Some da, COther => if silent && negb (Z.testbit known da) then Z.setbit known da else known
                    | _, _ => known
                    end) in
         match fold_left alt_ev (ap_evs p) (Some k0) with
@@ -83,13 +86,14 @@ Section Oracles.
 
   (* per address view: kinds of the events concerning address a, and strict alternation *)
   Inductive akind : Set := KUp | KRe | KDown.
+  Definition ev_kinds (a : Z) (e : aev P) : list akind :=
+    match e with
+    | AUp b _ => if b =? a then [KUp] else []
+    | ARe b _ => if b =? a then [KRe] else []
+    | ADown b => if b =? a then [KDown] else []
+    end.
   Definition kinds_of (a : Z) (tr : list (apoll P)) : list akind :=
-    flat_map (fun p => flat_map (fun e =>
-      match e with
-      | AUp b _ => if b =? a then [KUp] else []
-      | ARe b _ => if b =? a then [KRe] else []
-      | ADown b => if b =? a then [KDown] else []
-      end) (ap_evs p)) tr.
+    flat_map (fun p => flat_map (ev_kinds a) (ap_evs p)) tr.
   Fixpoint alt_from (b : bool) (l : list akind) : option bool :=
     match l with
     | [] => Some b
@@ -201,6 +205,7 @@ Arguments evs_matchb {P}.
 Arguments alt_walk {P}.
 Arguments no_other {P}.
 Arguments kinds_of {P}.
+Arguments ev_kinds {P}.
 Arguments consistent {P}.
 Arguments pay_consistent {P}.
 Arguments window_set {P}.
